@@ -354,12 +354,8 @@ class Server:
     def _wait_for_result(self, fut: concurrent.futures.Future):
         # This method is thread-safe.
         try:
-            if fut.exception(timeout=fut.data['deadline'] - perf_counter()) is not None:
-                # `Future.result` tests the exception by its truth value.
-                raise fut.exception()
-            return fut.result()
+            exc = fut.exception(timeout=fut.data['deadline'] - perf_counter())
             # If timeout is negative, it doesn't wait.
-            # This may raise an exception originating from RemoteException
         except concurrent.futures.TimeoutError as e:
             fut.cancel()
             t0 = fut.data['t0']
@@ -367,6 +363,13 @@ class Server:
             raise TimeoutError(
                 f"{fut.data['t1'] - t0:.3f} seconds enqueue, {perf_counter() - t0:.3f} seconds total"
             ) from e
+        if exc is not None:
+            # This may be an exception originating from RemoteException.
+            # It is raised outside of the `try` block because it may itself be a `TimeoutError`
+            # (which is what `concurrent.futures.TimeoutError` is), and it is not read by
+            # `Future.result` because that tests the exception by its truth value.
+            raise exc
+        return fut.result()
 
     def _gather_output(self) -> None:
         q_out = self._q_out
@@ -629,7 +632,11 @@ class AsyncServer:
     async def _wait_for_result(self, fut: asyncio.Future):
         try:
             await asyncio.wait_for(fut, fut.data['deadline'] - perf_counter())
-        except (asyncio.TimeoutError, TimeoutError):
+        except (asyncio.TimeoutError, TimeoutError) as e:
+            if fut.done() and not fut.cancelled() and fut.exception() is e:
+                # Not a timeout of the wait: the request has failed
+                # with a `TimeoutError` of the worker's own.
+                raise
             t0 = fut.data['t0']
             fut.cancel()
             fut.data['t_cancelled'] = perf_counter()  # time of abandonment
